@@ -1568,6 +1568,8 @@ class RTCSctpTransport(AsyncIOEventEmitter):
                     return
                 self._flight_size_increase(chunk)
 
+                # the chunk is in flight again, even if it had been gap-acked
+                chunk._acked = False
                 chunk._misses = 0
                 chunk._retransmit = False
                 chunk._sent_count += 1
